@@ -1294,9 +1294,9 @@ class SharedSpaceOperations:
         preds = self._graph.ordered_preds(node)
         return [self._graph.to_space(n) for n in preds]
 
-    def update_subs(self, space, skip_self=True):
+    def update_subs(self, space, skip_self=True, attrs=("cells", "own_refs")):
 
-        for attr in ("cells", "own_refs"):
+        for attr in attrs:
             for s in self._get_subs(space, skip_self):
                 b = self._get_space_bases(s, self._graph)
                 s.on_inherit(self, b, attr)
@@ -1371,7 +1371,9 @@ class SpaceManager(SharedSpaceOperations):
 
     def del_ref(self, space, name):
         space.on_del_ref(name)
-        self.update_subs(space, skip_self=False)
+        # Only the references: re-deriving the cells as well would discard
+        # the values, input values included, of every derived cells
+        self.update_subs(space, skip_self=False, attrs=("own_refs",))
 
     def new_cells(self, space, name=None, formula=None, data=None,
                   is_derived=False, is_cached=True):
